@@ -412,7 +412,7 @@ func (p *asciiProver) builderASCII(fn *ssa.Function, strCall *ssa.Call) bool {
 			if k, ok := t.Int(); ok && k >= 0 && k < 128 {
 				continue
 			}
-			if _, ok := ana.Match("load(iaddr(faddr<enc>(p0), _))", t); ok && p.encOK {
+			if _, ok := ana.Match("load(iaddr(faddr<#0>(p0), _))", t); ok && p.encOK {
 				continue
 			}
 			p.note("%s: WriteByte of %s not provably ASCII", fn.Name(), short(t.String(), 80))
